@@ -151,6 +151,9 @@ func (x *c03World) Enabled() []bfs.Op {
 		}
 	}
 	ops = append(ops, bfs.Op{Name: "ok", Arg: "1/none", Arg2: "1"}, bfs.Op{Name: "ok", Arg: "2/short-empty", Arg2: "315360000"})
+	// the CA grants less than requested to some certificates of one reply (every order of short and full validities)
+	ops = append(ops, bfs.Op{Name: "ok", Arg: "2/none/short-first", Arg2: "43200"}, bfs.Op{Name: "ok", Arg: "2/none/short-last", Arg2: "43200"},
+		bfs.Op{Name: "ok", Arg: "3/long/short-middle", Arg2: "315360000"}, bfs.Op{Name: "ok", Arg: "3/none/short-first", Arg2: "43200"})
 	if x.shim {
 		// request indices at the key store differ behind the shim; agent faults under a shim are C10's subject
 		return append(ops, bfs.Op{Name: "fail-auth"}, bfs.Op{Name: "fail-generate-noslot"}, bfs.Op{Name: "fail-ca"})
@@ -201,7 +204,7 @@ func (x *c03World) Apply(op bfs.Op) (fs []bfs.Finding) {
 		return
 	}
 	e.ca.Script = map[int]string{}
-	e.ca.NCerts, e.ca.Comments = 1, nil
+	e.ca.NCerts, e.ca.Comments, e.ca.Granted = 1, nil, nil
 	e.adv.Behaviour = "honest"
 	e.ua.Plan = map[int]string{}
 	base := len(e.ua.Log)
@@ -219,6 +222,17 @@ func (x *c03World) Apply(op bfs.Op) (fs []bfs.Finding) {
 		case "long":
 			for i := 0; i < e.ca.NCerts+1; i++ {
 				e.ca.Comments = append(e.ca.Comments, fmt.Sprintf("comment-%d", i))
+			}
+		}
+		if len(p) > 2 {
+			e.ca.Granted = make([]uint64, e.ca.NCerts)
+			switch p[2] {
+			case "short-first":
+				e.ca.Granted[0] = 600
+			case "short-last":
+				e.ca.Granted[e.ca.NCerts-1] = 600
+			case "short-middle":
+				e.ca.Granted[1] = 600
 			}
 		}
 	case "fail-auth":
@@ -299,6 +313,10 @@ func (x *c03World) Apply(op bfs.Op) (fs []bfs.Finding) {
 			add("identity-without-lifetime", fmt.Sprintf("the RA added an identity (comment %q) without a lifetime constraint", a.Comment))
 		} else if uint64(a.Lifetime) < validity {
 			add("lifetime-shorter-than-validity", fmt.Sprintf("the RA added an identity (comment %q) with lifetime %d s, shorter than the certificate validity %d s", a.Comment, a.Lifetime, validity))
+		} else if pk, perr := ssh.ParsePublicKey(a.Blob); perr == nil {
+			if crt, ok := pk.(*ssh.Certificate); ok && crt.ValidBefore > crt.ValidAfter && uint64(a.Lifetime) < crt.ValidBefore-crt.ValidAfter {
+				add("lifetime-shorter-than-validity", fmt.Sprintf("the RA added a certificate valid for %d s with an agent lifetime of %d s", crt.ValidBefore-crt.ValidAfter, a.Lifetime))
+			}
 		}
 	}
 	if op.Name == "ok" && err != nil {
@@ -361,7 +379,7 @@ func (x *c03World) Apply(op bfs.Op) (fs []bfs.Finding) {
 
 func checkC03(c *ev.Ctx) {
 	defer cleanupScratch()
-	c.Rule("E1 BFS over sequences of real gensign.Run executions against one agent: transitions = success with the CA returning 1..3 certificates x comment lists {none, shorter with empty strings, longer} and validity {1 s, 12 h, 10 y}; failure at authentication, at private-key insertion, missing key slot, CA error, agent failure at list / certificate add (thorough: remove, CA panic); roots = all 32 subsets of {plain key, foreign certificate, 3 near-miss comments} over a plain key store, plus 6 of them behind the real shim agent (virtual clock; fault-free and pre-signing-failure transitions); state = canonical identity multiset (class, generation age, comment, lifetime). non-trivial = successful run, or failed run with certificates at stake; distinct by (state, transition)")
+	c.Rule("E1 BFS over sequences of real gensign.Run executions against one agent: transitions = success with the CA returning 1..3 certificates x comment lists {none, shorter with empty strings, longer} and validity {1 s, 12 h, 10 y}, incl. replies in which the CA grants 10 min to the first / middle / last certificate only; failure at authentication, at private-key insertion, missing key slot, CA error, agent failure at list / certificate add (thorough: remove, CA panic); roots = all 32 subsets of {plain key, foreign certificate, 3 near-miss comments} over a plain key store, plus 6 of them behind the real shim agent (virtual clock; fault-free and pre-signing-failure transitions); state = canonical identity multiset (class, generation age, comment, lifetime). non-trivial = successful run, or failed run with certificates at stake; distinct by (state, transition)")
 	c.Assume("identities whose comment contains the handler name inside a longer word are don't-care", "lifetime constraints are read from the add-identity requests as parsed by x/crypto's agent server")
 	var roots []string
 	for m := 0; m < 32; m++ {
